@@ -93,6 +93,25 @@ Fixpoint paths_list (loc : bytes) (l : list tree) : list (bytes * bool) :=
 Definition spec_written (sel : selector) (top : list tree) : list (bytes * bool) :=
   filter (fun pd => fst (sel (fst pd) (snd pd))) (paths_list [] top).
 
+(* exclude filters (documented gitignore-like limitation: once a directory is excluded nothing inside it can
+   be re-included by a negated pattern): an entry is written iff it is selected and so is every directory
+   above it.  [chain_list] lists every entry with the locations of its ancestor directories. *)
+Fixpoint chain_node (anc : list bytes) (loc : bytes) (n : tree) : list ((bytes * bool) * list bytes) :=
+  match n with
+  | Node name isdir kids =>
+      let p := desc loc name in
+      ((p, isdir), anc) ::
+      (if isdir then (fix go (l : list tree) := match l with [] => [] | k :: r => chain_node (anc ++ [p]) p k ++ go r end) kids
+       else [])
+  end.
+Fixpoint chain_list (anc : list bytes) (loc : bytes) (l : list tree) : list ((bytes * bool) * list bytes) :=
+  match l with [] => [] | k :: r => chain_node anc loc k ++ chain_list anc loc r end.
+
+Definition chain_ok (sel : selector) (ec : (bytes * bool) * list bytes) : bool :=
+  andb (fst (sel (fst (fst ec)) (snd (fst ec)))) (forallb (fun a => fst (sel a true)) (snd ec)).
+Definition spec_written_excl (sel : selector) (top : list tree) : list (bytes * bool) :=
+  map fst (filter (chain_ok sel) (chain_list [] [] top)).
+
 (* ---- removeUnexpectedFiles ----
    a pre-existing entry (dir location, name) is removed iff leaveDir runs for the directory, the name is
    not a child name of the snapshot directory and the filter selects it (isDir = false) *)
@@ -120,13 +139,15 @@ Definition final_state (sel : selector) (delete : bool) (top : list tree) (extra
      ++ map (fun e => desc (fst e) (snd e)) kept
      ++ flat_map (fun e => fst e :: ancestors (fst e)) extras.
 
-Definition spec_final (sel : selector) (delete : bool) (top : list tree) (extras : list (bytes * bytes)) : list bytes :=
-  let wr := map fst (spec_written sel top) in
+Definition spec_final_w (written : list (bytes * bool)) (sel : selector) (delete : bool) (top : list tree) (extras : list (bytes * bytes)) : list bytes :=
+  let wr := map fst written in
   let w := walk_root sel top in
   let kept := filter (fun e => negb (andb delete (deleted sel (w_leave w) e))) extras in
   wr ++ flat_map ancestors wr
      ++ map (fun e => desc (fst e) (snd e)) kept
      ++ flat_map (fun e => fst e :: ancestors (fst e)) extras.
+Definition spec_final (sel : selector) (delete : bool) (top : list tree) (extras : list (bytes * bytes)) : list bytes :=
+  spec_final_w (spec_written sel top) sel delete top extras.
 
 (* ---- cases ---- *)
 Inductive mode := MAll | MInclude | MExclude.
@@ -150,14 +171,21 @@ Definition sel_of (c : case) : selector :=
 Definition subset (a b : list bytes) : bool := forallb (fun x => orb (is_nil x) (mem_bytes x b)) a.
 Definition set_eq (a b : list bytes) : bool := andb (subset a b) (subset b a).
 
+(* what restore must write: include (and no filter): the selected entries; exclude: the selected entries
+   below selected directories (negated patterns cannot re-include below an excluded directory) *)
+Definition spec_of (c : case) : list bytes :=
+  match c_mode c with
+  | MExclude => spec_final_w (spec_written_excl (sel_of c) (c_tree c)) (sel_of c) (c_delete c) (c_tree c) (c_extras c)
+  | _ => spec_final (sel_of c) (c_delete c) (c_tree c) (c_extras c)
+  end.
+
 (* oracle: the target holds exactly the selected snapshot entries, the directories leading to them and
    the pre-existing entries that --delete does not take away.
    codes: 2 something present that must not be, 3 something missing *)
-Definition check_C20 (c : case) : bool :=
-  set_eq (c_obs c) (spec_final (sel_of c) (c_delete c) (c_tree c) (c_extras c)).
+Definition check_C20 (c : case) : bool := set_eq (c_obs c) (spec_of c).
 
 Definition check_case (c : case) : nat :=
-  let sp := spec_final (sel_of c) (c_delete c) (c_tree c) (c_extras c) in
+  let sp := spec_of c in
   if negb (subset (c_obs c) sp) then 2
   else if negb (subset sp (c_obs c)) then 3
   else if set_eq (c_obs c) (final_state (sel_of c) (c_delete c) (c_tree c) (c_extras c)) then 0 else 1.
